@@ -26,6 +26,7 @@ func init() {
 			"(R20.7) every StackIterator implementation returns from Function() a value that does not alias the iterator (a genuine compiler defect – the multi-listener adapter saw the outermost function for every frame – was found and fixed); (R20.8) the parallel frame caches of the multi-listener adapter are reset together; (R20.6) what a cached compiled module captures of the listeners must be covered by the module identity – on this tree the engines store the listener objects while the identity hashes only their nil-ness: a second CompileModule of the same binary under another listener factory silently uses the first factory's listeners (demonstrated on both engines, recorded as two known findings). " +
 			"NOT decided: the native return-address walk itself, nesting under unwinding, equality of event streams between engines, parameter/result values.",
 		Rules: []core.Rule{
+			{ID: "R20.13", Template: "T-OWN", Text: "listener adapters keep no per-call state in the listener object (genuine defect found and fixed: MultiFunctionListenerFactory)", Min: 3},
 			{ID: "R20.1", Template: "T-MUSTPASS", Text: "before at entry; label-derived jump targets are return-block-checked with an after call; emitted returns are covered", Min: 6},
 			{ID: "R20.2", Template: "T-TYPESTATE", Text: "Before ≺ call ≺ After in every Go-side bracket; body runner only via the listener-consulting dispatcher", Min: 7},
 			{ID: "R20.3", Template: "T-SIBLING", Text: "Abort for every collected frame after the error is built; frame walks are not capped by a constant", Min: 5},
@@ -41,6 +42,7 @@ func init() {
 		},
 		Run: runC20,
 		Controls: []core.Control{
+			{Name: "multi-listener-iterator-in-the-listener", File: "experimental/listener.go", Old: "\tstack := stackIterator{base: si}\n\tfor _, lstn := range multi.lstns {\n\t\tstack.index = -1\n\t\tlstn.Before(ctx, mod, def, params, &stack)\n\t}", New: "\tmulti.stack.base = si\n\tfor _, lstn := range multi.lstns {\n\t\tmulti.stack.index = -1\n\t\tlstn.Before(ctx, mod, def, params, &multi.stack)\n\t}", Rule: "R20.13", Substr: "multiFunctionListener", Old2: "type multiFunctionListener struct {\n\tlstns []FunctionListener\n}", New2: "type multiFunctionListener struct {\n\tlstns []FunctionListener\n\tstack stackIterator\n}"},
 			{Name: "after-gets-bottom-of-stack", File: "internal/engine/wazevo/frontend/lower.go", Old: "l.values[tail-c.results():tail]...)", New: "l.values[:c.results()+tail-tail]...)", Rule: "R20.11", Substr: "callListenerAfter"},
 			{Name: "abort-only-when-entry-module-has-listeners", File: "internal/engine/wazevo/call_engine.go", Old: "\t\t\t\tdef, lsn = c.addFrame(builder, retAddr)\n\t\t\t\tif lsn != nil {", New: "\t\t\t\tdef, lsn = c.addFrame(builder, retAddr)\n\t\t\t\tif len(c.parent.parent.listeners) > 0 && lsn != nil {", Rule: "R20.12", Substr: "compiler"},
 			{Name: "compiler-stack-overflow-without-abort", File: "internal/engine/wazevo/call_engine.go", Old: "\t\t\t\t\tif def, lsn := c.addFrame(builder, retAddr); lsn != nil {\n\t\t\t\t\t\tlsn.Abort(ctx, m, def, err)\n\t\t\t\t\t}", New: "\t\t\t\t\t_, _ = c.addFrame(builder, retAddr)", Rule: "R20.10", Substr: "compiler"},
@@ -76,6 +78,7 @@ func runC20(c *core.Ctx) {
 	checkStackOverflowAbort(c)
 	checkAfterReceivesTopOfStack(c)
 	checkAbortCollectionUnconditional(c)
+	checkListenerAdapterState(c)
 }
 
 // ---------------------------------------------------------------------------------------------------------
